@@ -7,6 +7,7 @@ from .types import PT, INT, BOOL, EXT, NONE, STR, Opt, Seq, Set, Arr, Map, Tup
 from .values import (
     SV,
     ObjRef,
+    OptRef,
     View,
     StaticRec,
     StaticRecClass,
@@ -397,6 +398,8 @@ class ExprMixin:
                 x = a if b is None else b
                 if x is None:
                     t = smt.TRUE
+                elif isinstance(x, OptRef):
+                    t = smt.Not(x.present)
                 elif isinstance(x, SV) and x.pt.kind == "opt":
                     t = smt.Not(ops.opt_is_some(x))
                 elif isinstance(x, SV) and x.pt.kind == "none":
@@ -452,6 +455,10 @@ class ExprMixin:
         return self.getattr(base, node.attr, st)
 
     def getattr(self, base, attr, st):
+        if isinstance(base, OptRef):
+            if not self.spec_mode:
+                self.safety(st, base.present, "attribute of an Optional object that is not None")
+            base = base.ref
         if isinstance(base, ObjRef):
             fields = st.heap[base.oid]
             if attr in fields:
